@@ -175,67 +175,116 @@ def solver_for(interp: Interp, timeout_ms, ground=False, supers=None):
     return s
 
 
-def run_cvc5(smt2_text, timeout_ms):
-    import os
+def run_external(kind, path, timeout_ms):
     import subprocess
-    import tempfile
-    fd, path = tempfile.mkstemp(suffix=".smt2", prefix="pyvc_")
+    if kind == "cvc5":
+        cmd = ["/usr/bin/cvc5", "--lang", "smt2", f"--tlimit={int(timeout_ms)}", path]
+    else:
+        cmd = ["z3-new", "smt.mbqi=false", f"-t:{int(timeout_ms)}", path]
     try:
-        with os.fdopen(fd, "w") as fh:
-            fh.write(smt2_text)
-        try:
-            r = subprocess.run(["/usr/bin/cvc5", "--lang", "smt2", f"--tlimit={int(timeout_ms)}", path],
-                               capture_output=True, text=True, timeout=timeout_ms / 1000 + 5)
-            out = r.stdout.strip().splitlines()
-            return out[0] if out else "unknown"
-        except subprocess.TimeoutExpired:
-            return "unknown"
-        except OSError:
-            return "unknown"
-    finally:
-        try:
-            os.unlink(path)
-        except OSError:
-            pass
+        r = subprocess.run(cmd, capture_output=True, text=True, timeout=timeout_ms / 1000 + 5)
+        out = r.stdout.strip().splitlines()
+        return out[0] if out else "unknown"
+    except (subprocess.TimeoutExpired, OSError):
+        return "unknown"
+
+
+def race(pending, paths, budget_ms, max_procs=16):
+    """Run z3 and cvc5 on every file; as soon as one of the two answers `unsat`/`sat` the sibling is killed."""
+    import subprocess
+    queue = [(id(o), kind, pth) for o, pth in zip(pending, paths) for kind in ("cvc5", "z3")]
+    running = []          # (oid, kind, Popen, t0)
+    answers = {id(o): {} for o in pending}
+    decided = set()
+
+    def cmd(kind, pth):
+        if kind == "cvc5":
+            return ["/usr/bin/cvc5", "--lang", "smt2", f"--tlimit={int(budget_ms)}", pth]
+        return ["z3-new", "smt.mbqi=false", f"-t:{int(budget_ms)}", pth]
+    while queue or running:
+        while queue and len(running) < max_procs:
+            oid, kind, pth = queue.pop(0)
+            if oid in decided:
+                continue
+            try:
+                pr = subprocess.Popen(cmd(kind, pth), stdout=subprocess.PIPE, stderr=subprocess.DEVNULL, text=True)
+            except OSError:
+                answers[oid][kind] = "unknown"
+                continue
+            running.append((oid, kind, pr, time.time()))
+        still = []
+        for oid, kind, pr, t0 in running:
+            if oid in decided:
+                pr.kill()
+                pr.wait()
+                continue
+            rc = pr.poll()
+            if rc is None:
+                if time.time() - t0 > budget_ms / 1000 + 5:
+                    pr.kill()
+                    pr.wait()
+                    answers[oid][kind] = "unknown"
+                else:
+                    still.append((oid, kind, pr, t0))
+                continue
+            out = (pr.stdout.read() or "").strip().splitlines()
+            ans = out[0] if out else "unknown"
+            answers[oid][kind] = ans
+            if ans in ("unsat", "sat"):
+                decided.add(oid)
+        running = still
+        if running:
+            time.sleep(0.02)
+    return answers
 
 
 def second_pass(interp, pending, ground, timeout_ms, supers):
-    """z3 left these open: cvc5 in parallel, then z3 again with the full budget, then a candidate model from the
-    ground theory (which only a native replay can turn into a violation)."""
+    """The quick in-process z3 pass left these open: z3 and cvc5 command-line solvers run in parallel on the SMT-LIB
+    text of every open obligation (first `unsat` wins); what is still open gets a candidate model from the ground theory,
+    which only a native replay can turn into a violation."""
     if not pending:
         return
+    import os
+    import tempfile
     from concurrent.futures import ThreadPoolExecutor
     t1 = time.time()
-    with ThreadPoolExecutor(max_workers=min(8, len(pending))) as ex:
-        res = list(ex.map(lambda o: run_cvc5(o.smt2, max(timeout_ms, 20000)), pending))
-    still = []
-    for o, r in zip(pending, res):
-        if r == "unsat":
-            o.status, o.backend = "discharged", "cvc5"
-        else:
-            o.note = (o.note + " " if o.note else "") + f"cvc5:{r}"
-            still.append(o)
-        o.time += (time.time() - t1) / max(1, len(pending))
-    for o in still:
-        t2 = time.time()
-        s = solver_for(interp, timeout_ms, supers=supers)
-        s.set("smt.random_seed", 7)
-        s.add(*o.pc)
-        s.add(z3.Not(o.goal))
-        r = s.check()
-        if r == z3.unsat:
-            o.status, o.backend = "discharged", "z3-retry"
-        elif r == z3.sat:
-            o.status, o.backend, o.model = "failed", "z3", s.model()
-        else:
+    tmpdir = tempfile.mkdtemp(prefix="pyvc_")
+    paths = []
+    for n, o in enumerate(pending):
+        pth = os.path.join(tmpdir, f"o{n}.smt2")
+        with open(pth, "w") as fh:
+            fh.write(o.smt2)
+        paths.append(pth)
+    budget = max(timeout_ms, 20000)
+    answers = race(pending, paths, budget)
+    for pth in paths:
+        try:
+            os.unlink(pth)
+        except OSError:
+            pass
+    try:
+        os.rmdir(tmpdir)
+    except OSError:
+        pass
+    dt = (time.time() - t1) / max(1, len(pending))
+    for o in pending:
+        a = answers[id(o)]
+        o.time += dt
+        if a.get("z3") == "unsat" or a.get("cvc5") == "unsat":
+            if "sat" in (a.get("z3"), a.get("cvc5")):
+                o.status, o.backend = "unknown", f"solvers disagree: {a}"
+            else:
+                o.status, o.backend = "discharged", "z3-cli" if a.get("z3") == "unsat" else "cvc5"
+            continue
+        o.note = (o.note + " " if o.note else "") + f"z3-cli:{a.get('z3')} cvc5:{a.get('cvc5')}"
+        if not T.has_quantifier(o.goal):
             ground.push()
             ground.add(*ground_only(o.pc))
             ground.add(z3.Not(o.goal))
-            if not T.has_quantifier(o.goal) and ground.check() == z3.sat:
+            if ground.check() == z3.sat:
                 o.model = ground.model()
                 o.status, o.backend = "failed", "z3-ground"
             ground.pop()
-        o.time += time.time() - t2
     for o in pending:
         o.smt2 = None
 
@@ -387,7 +436,7 @@ def _run_instance(c, tree, mod, label, recv, rep, timeout_ms, lookup):
         allf.extend(o.pc)
         allf.append(o.goal)
     supers = T.sub_supers(allf)
-    z3_first = min(timeout_ms, 4000)
+    z3_first = min(timeout_ms, 400)
     base = solver_for(interp, z3_first, supers=supers)
     ground = solver_for(interp, timeout_ms, ground=True, supers=supers)
     pending = []
